@@ -56,3 +56,59 @@ def count(s, x):
 
 def let(v, f):
     return f(v)
+
+
+def d_int(v):
+    return v
+
+
+def d_float(v):
+    return v
+
+
+def d_list(v):
+    return v
+
+
+def d_chars(v):
+    return [ord(c) for c in v]
+
+
+def d_is_int(v):
+    return isinstance(v, int) and not isinstance(v, bool)
+
+
+def d_is_float(v):
+    return isinstance(v, float)
+
+
+def d_is_list(v):
+    return isinstance(v, list)
+
+
+def d_is_str(v):
+    return isinstance(v, str)
+
+
+def d_is_dict(v):
+    return isinstance(v, dict)
+
+
+def d_is_none(v):
+    return v is None
+
+
+def dyn_get(v, k):
+    return v[k]
+
+
+def map_has(v, k):
+    return k in v
+
+
+def bitlen(m):
+    return m.bit_length()
+
+
+def str_to_int(s):
+    return int(s)
